@@ -269,7 +269,9 @@ func runC12(r *Run) {
 		c12One(r, strings.Repeat("(", d*10)+"1"+strings.Repeat(")", d*10), good, "map", budget)
 		c12One(r, strings.Repeat("-", d*10)+"1", good, "map", budget)
 		c12One(r, strings.Repeat("{a:", d)+"1"+strings.Repeat("}", d), good, "map", budget)
-		c12One(r, "x"+strings.Repeat(" + x", d*20), good, "map", budget)
+		if d <= 24 { // the debug renderer is cubic in the number of recorded values: 480 terms take seconds, 4000 an hour
+			c12One(r, "x"+strings.Repeat(" + x", d*20), good, "map", budget)
+		}
 		c12One(r, strings.Repeat("if(true, ", d)+"1"+strings.Repeat(", 2)", d), good, "map", budget)
 	}
 	n := 1200
